@@ -603,3 +603,99 @@ Proof.
   - rewrite zs_length, app_length, L, <- app_length, firstn_skipn. reflexivity.
 Qed.
 End Corollaries.
+
+(* ------------------------------------------------------------------ more facts about the model (any Num),
+   used by the ties of the callers (C04/TieGen.v) *)
+Section ModelFacts.
+Context {T : Type} {NT : Num T}.
+Notation mat := (list (list T)).
+
+Lemma rect_pivoting nr nc (M : mat) c r : rect nr nc M -> (r < nr)%nat -> rect nr nc (pivoting M c r).
+Proof.
+  intros [Hl Hr] Hlt. unfold pivoting, mapi. cbv zeta.
+  assert (Hlen : forall (F : nat -> list T -> list T) l s, length (mapi_from F s l) = length l).
+  { intros F l. induction l as [|x l IH]; intros s; cbn; [reflexivity|]. rewrite IH. reflexivity. }
+  assert (Hnth : forall (F : nat -> list T -> list T) l s i, (i < length l)%nat ->
+            nth i (mapi_from F s l) [] = F (s + i)%nat (nth i l [])).
+  { intros F l. induction l as [|x l IH]; intros s [|i] Hi; cbn in *; try lia.
+    - rewrite Nat.add_0_r. reflexivity.
+    - rewrite IH by lia. rewrite Nat.add_succ_r. reflexivity. }
+  split; [rewrite Hlen; exact Hl|]. intros i Hi. rewrite Hnth by lia. cbn [Nat.add].
+  destruct (Nat.eqb i r); [rewrite map_length; apply Hr, Hlt|].
+  destruct (neqb _ _); [apply Hr, Hi|]. rewrite length_map2, map_length, !Hr by assumption. apply Nat.min_id.
+Qed.
+
+Lemma mrt_loop_ext (M M' : mat) pv tc tolp tolr : forall cands rmin acc,
+  (forall i, In i cands -> nth i M [] = nth i M' []) ->
+  mrt_loop M pv tc tolp tolr cands rmin acc = mrt_loop M' pv tc tolp tolr cands rmin acc.
+Proof.
+  induction cands as [|i cands IH]; intros rmin acc Hrows; cbn [mrt_loop]; [reflexivity|].
+  unfold get. rewrite (Hrows i (or_introl eq_refl)). cbv zeta.
+  assert (Hr : forall k, In k cands -> nth k M [] = nth k M' []) by (intros k Hk; apply Hrows; right; exact Hk).
+  destruct (nleb _ _); [apply IH, Hr|]. destruct rmin as [rm|]; [|apply IH, Hr].
+  destruct (nltb (nadd rm tolr) _); [apply IH, Hr|]. destruct (nltb _ (nsub rm tolr)); apply IH, Hr.
+Qed.
+
+Lemma lex_loop_ext (M M' : mat) pv tolp tolr : forall cols am,
+  (forall i, In i am -> nth i M [] = nth i M' []) ->
+  lex_loop M pv tolp tolr cols am = lex_loop M' pv tolp tolr cols am.
+Proof.
+  induction cols as [|j cols IH]; intros am Hrows; cbn [lex_loop]; [reflexivity|].
+  destruct (Nat.eqb j pv); [apply IH, Hrows|]. cbv zeta. unfold min_ratio_test.
+  rewrite (mrt_loop_ext M M' pv j tolp tolr am None [] Hrows).
+  destruct (mrt_loop M' pv j tolp tolr am None []) as [|r0 [|r1 res]] eqn:E; try reflexivity;
+    apply IH; intros i Hi; apply Hrows;
+    (assert (Hin : In i (mrt_loop M' pv j tolp tolr am None [])) by (rewrite E; exact Hi));
+    apply mrt_loop_In in Hin; destruct Hin as [[]|[Hin _]]; exact Hin.
+Qed.
+
+Lemma nth_firstn_lt {A} (d : A) : forall n (l : list A) i, (i < n)%nat -> nth i (firstn n l) d = nth i l d.
+Proof. induction n as [|n IH]; intros [|x l] [|i] Hi; cbn; try reflexivity; try lia. apply IH. lia. Qed.
+
+(* the simplex code passes the view tableau[:-1, :] *)
+Lemma lex_min_ratio_test_n_firstn (M : mat) nr pv ss tolp tolr : (0 < nr <= length M)%nat ->
+  lex_min_ratio_test_n nr M pv ss tolp tolr = lex_min_ratio_test (firstn nr M) pv ss tolp tolr.
+Proof.
+  intros Hnr. unfold lex_min_ratio_test, lex_min_ratio_test_n, nrows, ncols.
+  rewrite firstn_length_le by lia. rewrite (nth_firstn_lt [] nr M 0) by lia. cbv zeta. unfold min_ratio_test.
+  assert (Hrows : forall i, In i (seq 0 nr) -> nth i M [] = nth i (firstn nr M) []).
+  { intros i Hi. apply in_seq in Hi. symmetry. apply nth_firstn_lt. lia. }
+  rewrite (mrt_loop_ext M (firstn nr M) _ _ _ _ _ None [] Hrows).
+  destruct (mrt_loop (firstn nr M) pv _ tolp tolr (seq 0 nr) None []) as [|r0 [|r1 res]] eqn:E; try reflexivity.
+  rewrite (lex_loop_ext M (firstn nr M)); [reflexivity|].
+  intros i Hi. apply Hrows. rewrite <- E in Hi. apply mrt_loop_In in Hi. destruct Hi as [[]|[Hi _]]. exact Hi.
+Qed.
+
+Lemma lex_loop_subset (M : mat) pv tolp tolr : forall cols am i,
+  In i (snd (lex_loop M pv tolp tolr cols am)) -> In i am.
+Proof.
+  induction cols as [|j cols IH]; intros am i Hi; cbn [lex_loop] in Hi; [exact Hi|].
+  destruct (Nat.eqb j pv); [apply IH, Hi|]. cbv zeta in Hi.
+  assert (Hsub : forall k, In k (min_ratio_test M pv j tolp tolr am) -> In k am).
+  { intros k Hk. unfold min_ratio_test in Hk. apply mrt_loop_In in Hk. destruct Hk as [[]|[Hk _]]. exact Hk. }
+  destruct (min_ratio_test M pv j tolp tolr am) as [|r0 [|r1 res]] eqn:E.
+  - apply IH in Hi. destruct Hi.
+  - cbn [snd] in Hi. apply Hsub, Hi.
+  - apply IH in Hi. apply Hsub, Hi.
+Qed.
+
+Lemma lex_min_ratio_test_n_range (M : mat) nr pv ss tolp tolr r :
+  lex_min_ratio_test_n nr M pv ss tolp tolr = (true, r) -> (r < nr)%nat.
+Proof.
+  unfold lex_min_ratio_test_n. cbv zeta.
+  assert (Hsub : forall k, In k (min_ratio_test M pv (ncols M - 1) tolp tolr (seq 0 nr)) -> (k < nr)%nat).
+  { intros k Hk. unfold min_ratio_test in Hk. apply mrt_loop_In in Hk. destruct Hk as [[]|[Hk _]]. apply in_seq in Hk. lia. }
+  destruct (min_ratio_test M pv (ncols M - 1) tolp tolr (seq 0 nr)) as [|r0 [|r1 res]] eqn:E; intro H.
+  - discriminate.
+  - injection H as <-. apply Hsub. left. reflexivity.
+  - destruct (lex_loop M pv tolp tolr (seq ss nr) (r0 :: r1 :: res)) as [found am'] eqn:El.
+    injection H as -> <-.
+    pose proof (lex_loop_subset M pv tolp tolr (seq ss nr) (r0 :: r1 :: res)) as Hs. rewrite El in Hs. cbn [snd] in Hs.
+    destruct am' as [|a0 am'].
+    + exfalso. revert El. clear. generalize (seq ss nr), (r0 :: r1 :: res).
+      induction l as [|j cols IH]; intros am; cbn [lex_loop]; [discriminate|].
+      destruct (Nat.eqb j pv); [apply IH|]. cbv zeta.
+      destruct (min_ratio_test M pv j tolp tolr am) as [|q0 [|q1 qs]]; try apply IH. discriminate.
+    + cbn [hd]. apply Hsub, Hs. left. reflexivity.
+Qed.
+End ModelFacts.
